@@ -21,6 +21,8 @@ pub enum OutMode {
     /// `ln -s <dir> $3`: the target is a symbolic link to an existing
     /// directory (path relative to the target's directory)
     LinkDir(String),
+    /// `mkdir $3; echo ... >$3/file`: the script makes $3 a directory
+    Dir3,
     /// the output is itself a rule: `#!<simdo>`, the statements given here
     /// (`;` between statements, `,` between their words), then the usual
     /// output as comment lines -- a generated .do file
@@ -55,6 +57,7 @@ impl OutMode {
             OutMode::Append => "append",
             OutMode::Link => "link",
             OutMode::LinkBoth => "linkboth",
+            OutMode::Dir3 => "dir3",
             OutMode::LinkDir(_) | OutMode::RuleText(_) => unreachable!(),
         }
         .to_string()
@@ -75,6 +78,7 @@ impl OutMode {
             "append" => OutMode::Append,
             "link" => OutMode::Link,
             "linkboth" => OutMode::LinkBoth,
+            "dir3" => OutMode::Dir3,
             _ => OutMode::Stdout,
         }
     }
